@@ -20,12 +20,16 @@ EXTENDS Integers, Sequences, FiniteSets, TLC, Json
 CONSTANT AsIsThroughSubjectSet
 
 PTypes == {"G", "SSGm", "U", "G|SSGm", "D"}
-GMTypes == {"U", "U|SSGm"}
+\* "U|SSDp": the group relation may hold D.parents subject sets: with a SubjectSet<G,"m"> type on D.parents this is a cycle of
+\* subject-set types that crosses namespaces (U|SSGm is the cycle inside one namespace)
+GMTypes == {"U", "U|SSGm", "U|SSDp"}
 Bodies == {"inc_parents", "trav_rel_m", "trav_perm_view", "this_perm_q", "trav_rel_self"}
 Mutations == {"none", "inc_undeclared_rel", "trav_undeclared_rel", "trav_undeclared_crel", "perm_undeclared",
               "type_undeclared_ns", "ss_undeclared_rel", "ss_undeclared_ns",
               \* a name that another class declares, but not the class that uses it
-              "inc_foreign_rel", "trav_foreign_rel", "perm_foreign"}
+              "inc_foreign_rel", "trav_foreign_rel", "perm_foreign",
+              \* the spelling other Zanzibar dialects give a wildcard relation: an undeclared name like any other
+              "ss_dots_rel"}
 \* the order of the classes in the document means nothing
 Orders == {"UGD", "DGU", "DUG"}
 \* dup: the unmutated body appears first as another permission of D (the same relation is traversed twice in one document)
@@ -38,7 +42,7 @@ Applicable(P) ==
     [] P.mut \in {"trav_undeclared_rel", "trav_undeclared_crel"} -> P.body \in {"trav_rel_m", "trav_perm_view", "trav_rel_self"}
     [] P.mut = "perm_undeclared" -> P.body = "this_perm_q"
     [] P.mut = "type_undeclared_ns" -> TRUE
-    [] P.mut \in {"ss_undeclared_rel", "ss_undeclared_ns"} -> P.pt \in {"SSGm", "G|SSGm"}
+    [] P.mut \in {"ss_undeclared_rel", "ss_undeclared_ns", "ss_dots_rel"} -> P.pt \in {"SSGm", "G|SSGm"}
     [] P.mut = "inc_foreign_rel" -> P.body = "inc_parents"
     [] P.mut = "trav_foreign_rel" -> P.body \in {"trav_rel_m", "trav_perm_view", "trav_rel_self"}
     [] P.mut = "perm_foreign" -> P.body = "this_perm_q" /\ ~P.dview /\ (P.gview \/ P.uview)
@@ -46,6 +50,7 @@ Applicable(P) ==
 \* declared types as sequences of <<namespace, relation>>
 TypesOf(t) == CASE t = "G" -> <<<<"G", "">>>> [] t = "SSGm" -> <<<<"G", "m">>>> [] t = "U" -> <<<<"U", "">>>>
                 [] t = "D" -> <<<<"D", "">>>> [] t = "G|SSGm" -> <<<<"G", "">>, <<"G", "m">>>> [] t = "U|SSGm" -> <<<<"U", "">>, <<"G", "m">>>>
+                [] t = "U|SSDp" -> <<<<"U", "">>, <<"D", "parents">>>>
 
 \* the declarations of a program: namespace -> set of relation/permission names
 Decls(P) == [U |-> {"self"} \cup (IF P.uview THEN {"view"} ELSE {}),
@@ -75,9 +80,11 @@ RuntimeOK(P) == P.body \in {"trav_rel_m", "trav_perm_view", "trav_rel_self"} => 
 (****************************** source text ******************************)
 TypeTxt(t) == CASE t = "G" -> "G[]" [] t = "SSGm" -> "SubjectSet<G, \"m\">[]" [] t = "U" -> "U[]" [] t = "D" -> "D[]"
                 [] t = "G|SSGm" -> "(G | SubjectSet<G, \"m\">)[]" [] t = "U|SSGm" -> "(U | SubjectSet<G, \"m\">)[]"
+                [] t = "U|SSDp" -> "(U | SubjectSet<D, \"parents\">)[]"
 ParentsTxt(P) ==
   CASE P.mut = "type_undeclared_ns" -> "Nowhere[]"
     [] P.mut = "ss_undeclared_rel" -> IF P.pt = "SSGm" THEN "SubjectSet<G, \"zz\">[]" ELSE "(G | SubjectSet<G, \"zz\">)[]"
+    [] P.mut = "ss_dots_rel" -> IF P.pt = "SSGm" THEN "SubjectSet<G, \"...\">[]" ELSE "(G | SubjectSet<G, \"...\">)[]"
     [] P.mut = "ss_undeclared_ns" -> IF P.pt = "SSGm" THEN "SubjectSet<Nowhere, \"m\">[]" ELSE "(G | SubjectSet<Nowhere, \"m\">)[]"
     [] OTHER -> TypeTxt(P.pt)
 \* the token an error must point at
@@ -86,6 +93,7 @@ Offending(P) ==
     [] P.mut \in {"type_undeclared_ns", "ss_undeclared_ns"} -> "Nowhere"
     [] P.mut \in {"inc_foreign_rel", "trav_foreign_rel"} -> "m"
     [] P.mut = "perm_foreign" -> "view"
+    [] P.mut = "ss_dots_rel" -> "..."
     [] OTHER -> ""
 BodyTxtM(P, mutated) ==
   LET r == IF mutated /\ P.mut \in {"inc_undeclared_rel", "trav_undeclared_rel"} THEN "zz"
@@ -119,7 +127,8 @@ Conforming(P) ==
       gms == TypesOf(P.gm)
       sub(t, obj) == IF t[2] = "" THEN <<"set", t[1], obj, "">> ELSE <<"set", t[1], obj, t[2]>>
   IN {<<"D", "d", "parents", sub(pts[i], CASE pts[i][1] = "G" -> "g" [] pts[i][1] = "U" -> "u1" [] OTHER -> "d2")>> : i \in 1..Len(pts)}
-     \cup {<<"G", "g", "m", IF gms[i][2] = "" THEN <<"set", "U", "u1", "">> ELSE <<"set", "G", "h", "m">>>> : i \in 1..Len(gms)}
+     \cup {<<"G", "g", "m", IF gms[i][2] = "" THEN <<"set", "U", "u1", "">>
+                              ELSE IF gms[i][1] = "D" THEN <<"set", "D", "d2", "parents">> ELSE <<"set", "G", "h", "m">>>> : i \in 1..Len(gms)}
      \cup {<<"G", "h", "m", <<"set", "U", "u1", "">>>>, <<"U", "u1", "self", <<"set", "U", "u1", "">>>>}
      \cup (IF P.pt = "D" THEN {<<"D", "d2", "parents", <<"set", "D", "d3", "">>>>} ELSE {})
 
